@@ -251,6 +251,50 @@ pub fn small_edits(sc: &SmallScenario, rng: &mut Rng, f: &mut dyn FnMut(&str, Ve
         f("splice-tag-from-other-key", y);
     }
     f("whole-body-from-other-key", o.clone());
+    // 10. structural edits COMBINED with counter-field rewrites. The counter field is the one part of a record an
+    // attacker may set freely; a decryptor that lets it steer anything makes these acceptable. For each
+    // rearrangement the counters are rewritten (a) so that each record announces its successor's original
+    // index minus one, (b) to the new position, (c) to the original index of the record that was there.
+    if n >= 2 && n <= 5 {
+        let mut arrangements: Vec<Vec<usize>> = Vec::new();
+        for mask in 1..(1u32 << n) {
+            let keep: Vec<usize> = (0..n).filter(|i| mask & (1 << i) != 0).collect();
+            if keep.len() < n {
+                arrangements.push(keep);
+            }
+        }
+        if n <= 4 {
+            for p in permutations(n) {
+                if !p.iter().enumerate().all(|(i, &j)| i == j) {
+                    arrangements.push(p);
+                }
+            }
+        }
+        for i in 0..n {
+            let mut d: Vec<usize> = (0..n).collect();
+            d.insert(i, i);
+            arrangements.push(d);
+        }
+        for arr in arrangements {
+            for style in 0..3 {
+                let mut x = Vec::new();
+                for (pos, &j) in arr.iter().enumerate() {
+                    let mut r = rec_bytes(j);
+                    let c: u64 = match style {
+                        0 => match arr.get(pos + 1) {
+                            Some(&next) => (next as u64).wrapping_sub(1),
+                            None => j as u64,
+                        },
+                        1 => pos as u64,
+                        _ => arr.get(pos.wrapping_sub(1)).map(|&p| p as u64 + 1).unwrap_or(0),
+                    };
+                    r[..8].copy_from_slice(&c.to_be_bytes());
+                    x.extend_from_slice(&r);
+                }
+                f("rearrange+rewrite-counters", x);
+            }
+        }
+    }
     // 9. empty and junk
     f("empty", vec![]);
     f("random-bytes", rng.bytes(b.len()));
